@@ -427,10 +427,35 @@ def rule_A3(ctx, rid='A3'):
     # pool branch: statements inside `for bound in bounds` over the map result
     merged = set()
     crossed = []
+    # workers may return the object itself or a tuple of its fields: map tuple positions
+    # of the loop target to the attribute paths the worker returns
+    worker_returns = []
+    for c in walk_no_nested(f.node):
+        if isinstance(c, ast.Call):
+            for a in c.args:
+                if isinstance(a, ast.Attribute) and isinstance(a.value, ast.Name) and \
+                        a.value.id == f.self_name and f.cls is not None and \
+                        a.attr in f.cls.methods:
+                    wf = f.cls.methods[a.attr]
+                    for r in walk_no_nested(wf.node):
+                        if isinstance(r, ast.Return) and isinstance(r.value, ast.Tuple):
+                            worker_returns.append([dotted(e) for e in r.value.elts])
     for lp in walk_no_nested(f.node):
-        if not isinstance(lp, ast.For) or not isinstance(lp.target, ast.Name):
+        if not isinstance(lp, ast.For):
             continue
-        w = lp.target.id
+        alias = {}
+        if isinstance(lp.target, ast.Name):
+            w = lp.target.id
+        elif isinstance(lp.target, ast.Tuple) and all(isinstance(e, ast.Name)
+                                                       for e in lp.target.elts):
+            w = '<worker>'
+            for wr in worker_returns:
+                if len(wr) == len(lp.target.elts):
+                    for nme, path in zip(lp.target.elts, wr):
+                        if path and path.startswith('self.'):
+                            alias[nme.id] = w + path[len('self'):]
+        else:
+            continue
         from .exprs import as_aug
         for st0 in lp.body:
             r_ = as_aug(st0)
@@ -438,6 +463,8 @@ def rule_A3(ctx, rid='A3'):
                 st = ast.AugAssign(target=r_[0], op=r_[1], value=r_[2])
                 tp = dotted(st.target)
                 vp = dotted(st.value)
+                if vp in alias:
+                    vp = alias[vp]
                 if tp and vp and tp.startswith('self.') and vp.startswith(w + '.'):
                     path, attr = tp.rsplit('.', 1)
                     merged.add((path, attr))
@@ -461,9 +488,13 @@ def rule_A3(ctx, rid='A3'):
            else 'crossed merge: %s' % crossed)
     # the cache
     okc = any(isinstance(st, ast.Assign) and dotted(st.targets[0]) == 'self.points' and
-              isinstance(lp.target, ast.Name) and
-              (lp.target.id + '.points') in unparse(st.value) and
-              'self.points' in unparse(st.value)
+              'self.points' in unparse(st.value) and (
+                  (isinstance(lp.target, ast.Name) and
+                   (lp.target.id + '.points') in unparse(st.value)) or
+                  (isinstance(lp.target, ast.Tuple) and any(
+                      isinstance(x, ast.Name) and x.id in {e.id for e in lp.target.elts
+                                                           if isinstance(e, ast.Name)}
+                      for x in ast.walk(st.value))))
               for lp in walk_no_nested(f.node) if isinstance(lp, ast.For) for st in lp.body)
     ctx.ob(rid, 'NautilusBound.sample:merge(cache)', okc, f.where(),
            'worker proposals are stacked into the cache after the existing ones')
